@@ -115,7 +115,7 @@ func genLazyCase(w *world) {
 			if len(k) > mpt.MaxKeyLength {
 				k = k[:mpt.MaxKeyLength]
 			}
-			switch r.Weighted([]int{22, 30, 18, 22, 8}) {
+			switch r.Weighted([]int{22, 30, 18, 18, 6, 6}) {
 			case 0:
 				if len(k) > 0 {
 					v := pick(r, vals)
@@ -145,8 +145,10 @@ func genLazyCase(w *world) {
 				w.batch(chs)
 			case 3:
 				w.get(k)
-			default:
+			case 4:
 				w.root()
+			default:
+				w.proof(k) // GetProof through HashNodes, some of them missing
 			}
 		}
 		w.root()
